@@ -23,7 +23,7 @@ ANCHORS = [
     "stereomolgraph.experimental:JSONHandler._stereo_from_payload",
 ]
 REQUIRED_ANCHORS = ANCHORS
-REQUIRED = ["roundtrips", "has_fleeting_bond", "has_placeholder", "has_none_parity", "has_change", "empty_graph", "scale_cases", "reloads_after_edit", "with_bond_attributes"] + [f"desc:{c}" for c in sem.CLASSES]
+REQUIRED = ["roundtrips", "has_fleeting_bond", "has_placeholder", "has_none_parity", "has_change", "empty_graph", "scale_cases", "reloads_after_edit", "with_bond_attributes", "colliding_id_graphs"] + [f"desc:{c}" for c in sem.CLASSES]
 
 
 def _big_ids(rng, pg):
@@ -51,6 +51,20 @@ def gen_cases(ctx):
         yield {"cls": cls, "pg": pg_to_json(pg), "bseed": rng.randrange(1 << 30)}
     for k, nsz, cls, seed in gen.scale_specs(ctx, rng):
         yield {"cls": cls, "scale": nsz, "gseed": seed, "bseed": seed // 3}
+    # descriptors that differ in nothing but two ids with colliding Python hashes (-1 / -2, x / x + 2**61 - 1)
+    for i in range(ctx.n(480, 6000)):
+        if i % 3 == 0:
+            pg = gen.substitution_pg(rng)
+        elif i % 3 == 1:
+            pg = gen.cis_trans_pair_colliding(rng, CLASS_NAMES[1 + 2 * (i % 2)])[0]
+        else:
+            cls = CLASS_NAMES[1 + 2 * (i % 2)]
+            pg = gen.twin_pair(rng, cls)[0]
+            a_, b_ = gen._colliding_ids(rng)
+            tw = sorted(pg["astereo"], key=repr)[:2]
+            if len(tw) == 2 and a_ not in pg["atoms"] and b_ not in pg["atoms"]:
+                pg = sem.pg_relabel(pg, {tw[0]: a_, tw[1]: b_})
+        yield {"cls": pg["cls"], "pg": pg_to_json(pg), "bseed": rng.randrange(1 << 30), "family": "colliding-ids"}
 
 
 def check_case(ctx, case):
@@ -69,6 +83,8 @@ def check_case(ctx, case):
     ctx.count(f"via:{via}")
     if any(set(v) - {"reaction"} for v in pg["bonds"].values()):
         ctx.count("with_bond_attributes")
+    if case.get("family") == "colliding-ids":
+        ctx.count("colliding_id_graphs")
     before = snap(g)
     descs = list(pg["astereo"].values()) + list(pg["bstereo"].values()) + [d for v in list(pg["achange"].values()) + list(pg["bchange"].values()) for d in v.values()]
     flags = []
